@@ -14,8 +14,8 @@
    state: a stored record has AssetID = its key (SetTwa stores under twa.AssetID, oracle.go:15), a
    missing record reads as the zero value (GetTwa, oracle.go:29-31).
    Hypotheses: the values are values of their Go types (uint64 samples and rate, int64 heights),
-   CurrentIndex + 1 does not wrap, and twaBatch < 2^63 - see the *_large theorems at the end for
-   what happens above: there the model and the code DISAGREE. *)
+   CurrentIndex + 1 does not wrap, the window is shorter than 2^63 (a Go slice), and twaBatch < 2^63 -
+   see the *_large theorems at the end for what happens above. *)
 From Coq Require Import String ZifyBool.
 From Comdex Require Import Lib.Base Lib.DecArith Lib.GoSem Model.Market Gen.PureFuns
   Proofs.PureFunsLemmas Proofs.PureFunsLemmas2 Proofs.PureFunsC17.
@@ -48,14 +48,17 @@ Ltac calc_rw :=
 
 (* UpdatePriceList on an existing record *)
 Theorem tie_market_UpdatePriceList_found : forall id script rate n gap h tw sid,
-  0 <= n < two63 -> u64 rate -> u64s (vals tw) -> 0 <= idx tw < two64 - 1 ->
+  0 <= n < two63 -> u64 rate -> u64s (vals tw) -> zlen (vals tw) < two63 -> 0 <= idx tw < two64 - 1 ->
   i64 (disc tw) -> 0 <= h < two63 ->
   cell_of (gen_market_UpdatePriceList id script rate n gap id sid (avg tw) (idx tw) (active tw) (vals tw) (disc tw) true h)
   = update n gap h rate (Some tw).
 Proof.
-  intros id script rate n gap h [vs ix av act dc] sid Hn Hr Hvs Hix Hdc Hh. cbn [vals idx avg active disc] in *.
+  intros id script rate n gap h [vs ix av act dc] sid Hn Hr Hvs Hlen Hix Hdc Hh. cbn [vals idx avg active disc] in *.
   unfold gen_market_UpdatePriceList, update, update_tail. cbn [vals idx avg active disc].
-  rewrite !Z.eqb_refl. rewrite !(wrap_i64_id n) by (unfold i64; lia).
+  rewrite !Z.eqb_refl. rewrite ?(wrap_i64_id n) by (unfold i64; lia).
+  pose proof (zlen_nonneg' vs) as Hl0.
+  rewrite ?(wrap_u64_id (zlen vs)) by (unfold u64, two64, two63 in *; lia).
+  change (wrap_u64 (zlen (@nil Z))) with 0.
   rewrite !(wrap_u64_id (ix + 1)) by (unfold u64; lia).
   change (wrap_u64 (0 + 1)) with 1.
   rewrite !(g_set_index_nth vs ix rate) by lia.
@@ -151,24 +154,27 @@ Theorem tie_market_recognised :
 Proof. repeat split; reflexivity. Qed.
 Print Assumptions tie_market_recognised.
 
-(* ---------------- twaBatch >= 2^63: the model and the code disagree ----------------
-   The code converts the batch size with int(twaBatch) (oracle.go:113 and :139); for
-   twaBatch >= 2^63 that is negative.  CalculateTwa then sums nothing and returns 0, and the test
-   len(twa.PriceValue) >= int(twaBatch) of UpdatePriceList is always true, so the SECOND sample of
-   an asset is written to PriceValue[1] of a one-element window: index out of range.
-   Model/Market.v compares with the batch size itself: no panic (c17_no_panic is stated for every
-   n >= 1).  Reported in docs/TIE_C.md section 5; the ties above are for twaBatch < 2^63. *)
+(* ---------------- twaBatch >= 2^63 ----------------
+   Before fix commit (see known_findings.json, C17-F3) UpdatePriceList compared
+   len(twa.PriceValue) >= int(twaBatch): for twaBatch >= 2^63 the conversion is negative, the test
+   was always true, and the SECOND sample of an asset was written to PriceValue[1] of a one-element
+   window - index out of range, in the unwrapped market BeginBlocker.  Found by this tie (the
+   regenerated definition and Model/Market.v, which compares with the batch size itself, differed
+   on exactly that input).  The code now compares uint64(len(..)) >= twaBatch; the witness below is
+   the old failing input and now agrees with the model.  CalculateTwa still converts with
+   int(twaBatch) (it is only reached with a full window, i.e. never for such a batch size). *)
 Theorem tie_market_CalculateTwa_large : forall n old vs, two63 <= n < two64 ->
   gen_market_CalculateTwa n old vs = Ok 0.
 Proof. intros. rewrite gen_calc_shape. apply acc128_large; assumption. Qed.
 Print Assumptions tie_market_CalculateTwa_large.
 
-Theorem tie_market_UpdatePriceList_large_differs :
+Theorem tie_market_UpdatePriceList_large_fixed :
   let tw := mkTwa [5] 1 0 false (-1) in
-  cell_of (gen_market_UpdatePriceList 1 0 7 two63 10 1 0 (avg tw) (idx tw) (active tw) (vals tw) (disc tw) true 40) = Panic /\
-  update two63 10 40 7 (Some tw) = Ok (Some (mkTwa [5; 7] 2 0 false (-1))).
+  (cell_of (gen_market_UpdatePriceList 1 0 7 two63 10 1 0 (avg tw) (idx tw) (active tw) (vals tw) (disc tw) true 40)
+   = update two63 10 40 7 (Some tw)) /\
+  (update two63 10 40 7 (Some tw) = Ok (Some (mkTwa [5; 7] 2 0 false (-1)))).
 Proof. split; vm_compute; reflexivity. Qed.
-Print Assumptions tie_market_UpdatePriceList_large_differs.
+Print Assumptions tie_market_UpdatePriceList_large_fixed.
 
 (* non-vacuity: the hypotheses are met by a run that completes a window of large samples (the sum
    needs the 128-bit accumulator) *)
